@@ -3,12 +3,14 @@ package main
 import (
 	"bytes"
 	"compress/flate"
+	"encoding/hex"
 	"encoding/json"
 	"fmt"
 	"io"
 	"math/rand"
 	"os"
 	"strings"
+	"time"
 
 	"github.com/gorilla/websocket"
 )
@@ -46,6 +48,7 @@ func (s *scenario) tag(t string) {
 func (s *scenario) violate(f string, a ...interface{}) {
 	s.violations = append(s.violations, fmt.Sprintf(f, a...))
 }
+
 var knownSigs = func() map[string]bool {
 	m := map[string]bool{}
 	for _, k := range strings.Split(os.Getenv("VERIF_KNOWN"), ",") {
@@ -195,7 +198,9 @@ type wConn struct {
 	errSeen  bool
 	closeSnt bool
 	faulted  bool
-	f8       bool // a prepared data message was sent while a message writer was open (finding F8)
+	wd       time.Time // the connection's write deadline as the program set it
+	live     bool      // a message is in progress from the API's point of view (C20 oracle)
+	f8       bool      // a prepared data message was sent while a message writer was open (finding F8)
 }
 
 // closeOnWire: has this connection already written a close frame (by whatever path)?
@@ -240,26 +245,27 @@ func (r *scriptedReader) Read(p []byte) (int, error) {
 }
 
 type wOpts struct {
-	faults     bool // inject a transport fault somewhere
-	closes     bool // send close frames at random steps
-	invalid    bool // invalid requests
-	prepared   bool
-	compress   bool
-	multi      bool // several connections sharing a pool
-	allowF8    bool // WritePreparedMessage(data) while a message writer is open (finding F8)
-	bigPayload bool
+	faults        bool // inject a transport fault somewhere
+	closes        bool // send close frames at random steps
+	invalid       bool // invalid requests
+	prepared      bool
+	compress      bool
+	multi         bool // several connections sharing a pool
+	allowF8       bool // WritePreparedMessage(data) while a message writer is open (finding F8)
+	bigPayload    bool
 	preparedHeavy bool // most steps create or send prepared messages
 }
 
 type wGen struct {
-	rng   *rand.Rand
-	sc    *scenario
-	log   *evlog
-	ks    *keySource
-	pool  *tPool
-	conns []*wConn
-	pms   []*wPM
-	opt   wOpts
+	rng     *rand.Rand
+	sc      *scenario
+	log     *evlog
+	ks      *keySource
+	pool    *tPool
+	poolBad bool
+	conns   []*wConn
+	pms     []*wPM
+	opt     wOpts
 }
 
 type wPM struct {
@@ -414,6 +420,7 @@ func (g *wGen) markResult(wc *wConn, err error) {
 }
 
 func (g *wGen) opNextWriter(wc *wConn, t int) {
+	wc.t.wantDeadline(wc.wd)
 	_, prev := g.prevEnv(wc)
 	hadOpen := wc.cur != nil && !wc.cur.closed
 	wc.lastWrap = nil
@@ -424,6 +431,7 @@ func (g *wGen) opNextWriter(wc *wConn, t int) {
 		implicitSent(wc)
 	}
 	wc.cur = nil
+	wc.live = err == nil
 	res := ""
 	if err != nil {
 		res = "err " + errName(err)
@@ -440,6 +448,7 @@ func (g *wGen) opNextWriter(wc *wConn, t int) {
 }
 
 func (g *wGen) opWrite(wc *wConn, h int, p []byte, asString bool) {
+	wc.t.wantDeadline(wc.wd)
 	w := wc.handles[h]
 	om := wc.msgs[h]
 	var n int
@@ -468,6 +477,9 @@ func (g *wGen) opWrite(wc *wConn, h int, p []byte, asString bool) {
 	if err != nil {
 		res = "err " + errName(err)
 		g.markResult(wc, err)
+		if om == wc.cur {
+			wc.live = false // an error ends the message
+		}
 	} else {
 		om.all = append(om.all, p...)
 	}
@@ -476,6 +488,7 @@ func (g *wGen) opWrite(wc *wConn, h int, p []byte, asString bool) {
 }
 
 func (g *wGen) opReadFrom(wc *wConn, h int) {
+	wc.t.wantDeadline(wc.wd)
 	w := wc.handles[h]
 	rf, ok := w.(io.ReaderFrom)
 	if !ok {
@@ -515,6 +528,9 @@ func (g *wGen) opReadFrom(wc *wConn, h int) {
 	if err != nil {
 		res = fmt.Sprintf("err %s %d", errName(err), nn)
 		g.markResult(wc, err)
+		if wc.msgs[h] == wc.cur && !isReaderErr(err) {
+			wc.live = false
+		}
 	}
 	wc.msgs[h].all = append(wc.msgs[h].all, all[:nn]...)
 	cs := strings.Join(parts, ",")
@@ -526,6 +542,7 @@ func (g *wGen) opReadFrom(wc *wConn, h int) {
 }
 
 func (g *wGen) opClose(wc *wConn, h int) {
+	wc.t.wantDeadline(wc.wd)
 	w := wc.handles[h]
 	om := wc.msgs[h]
 	err := w.Close()
@@ -540,12 +557,16 @@ func (g *wGen) opClose(wc *wConn, h int) {
 		wc.sent = append(wc.sent, apiMsg{om.t, om.all})
 	}
 	om.closed = true
+	if om == wc.cur {
+		wc.live = false
+	}
 	g.markResult(wc, err)
 	g.sc.emit(fmt.Sprintf("cl %s u%d%s", wc.id, h, env), g.line(resStr(err)))
 	g.sc.tag("op:cl")
 }
 
 func (g *wGen) opWriteMessage(wc *wConn, t int, p []byte) {
+	wc.t.wantDeadline(wc.wd)
 	_, prev := g.prevEnv(wc)
 	hadOpen := wc.cur != nil && !wc.cur.closed
 	wc.lastWrap = nil
@@ -555,6 +576,7 @@ func (g *wGen) opWriteMessage(wc *wConn, t int, p []byte) {
 		implicitSent(wc)
 	}
 	wc.cur = nil
+	wc.live = false
 	if wc.lastWrap != nil {
 		om := &openMsg{t: t, level: wc.level, rec: wc.lastWrap, writes: [][]byte{p}}
 		if d := wc.lastWrap.take(); d != "" {
@@ -585,6 +607,7 @@ func (g *wGen) opWriteMessage(wc *wConn, t int, p []byte) {
 }
 
 func (g *wGen) opWriteJSON(wc *wConn) {
+	wc.t.wantDeadline(wc.wd)
 	r := g.rng
 	var v interface{}
 	switch r.Intn(3) {
@@ -607,6 +630,7 @@ func (g *wGen) opWriteJSON(wc *wConn) {
 		implicitSent(wc)
 	}
 	wc.cur = nil
+	wc.live = false
 	if wc.lastWrap != nil {
 		om := &openMsg{t: 1, level: wc.level, rec: wc.lastWrap, writes: [][]byte{enc}}
 		if d := wc.lastWrap.take(); d != "" {
@@ -622,7 +646,29 @@ func (g *wGen) opWriteJSON(wc *wConn) {
 	g.sc.tag("op:wj")
 }
 
+func isReaderErr(err error) bool { _, ok := err.(*rErr); return ok }
+
+// poolCheck (C20): the pool's outstanding buffers are exactly the messages in progress — a connection
+// takes one when a message starts, returns it when the message ends (Close, implicit close, error)
+// and holds none between messages. Judged on the pool's Get/Put calls alone.
+func (g *wGen) poolCheck() {
+	if g.pool == nil || g.poolBad {
+		return
+	}
+	live := 0
+	for _, wc := range g.conns {
+		if wc.pool && wc.live {
+			live++
+		}
+	}
+	if out := g.pool.nGet - g.pool.nPut; out != live {
+		g.poolBad = true
+		g.sc.violate("pool: %d buffers outstanding (Get %d, Put %d) while %d messages are in progress", out, g.pool.nGet, g.pool.nPut, live)
+	}
+}
+
 func (g *wGen) opWriteControl(wc *wConn, t int, p []byte, d int) {
+	wc.t.wantDeadline(tokTime(d))
 	err := wc.c.WriteControl(t, p, tokTime(d))
 	if err == nil {
 		wc.sent = append(wc.sent, apiMsg{t, p})
@@ -673,13 +719,16 @@ func (g *wGen) opNewPrepared() {
 }
 
 func (g *wGen) opWritePrepared(wc *wConn, pm *wPM) {
+	wc.t.wantDeadline(wc.wd)
 	compress := wc.nego && wc.enableWC && (pm.t == 1 || pm.t == 2)
 	key := fmt.Sprintf("%v/%v/%d", wc.srv, compress, wc.level)
 	if !compress {
 		key = fmt.Sprintf("%v/%v/%d", wc.srv, false, wc.level)
 	}
-	if compress && !pm.cached[key] && wc.errSeen {
-		return // the image would not be observable
+	if _, f := wc.t.faults[wc.t.calls]; compress && !pm.cached[key] && (wc.errSeen || wc.closeOnWire() || f) {
+		// the write will be refused (sticky error, close sent, or the scripted fault hits SetWriteDeadline),
+		// so the image built for this key — an environment answer of compress/flate — would not be observable
+		return
 	}
 	if (pm.t == 1 || pm.t == 2) && wc.cur != nil && !wc.cur.closed {
 		if !g.opt.allowF8 {
@@ -703,6 +752,25 @@ func (g *wGen) opWritePrepared(wc *wConn, pm *wPM) {
 	pm.cached[key] = true
 	if err == nil {
 		wc.sent = append(wc.sent, apiMsg{pm.t, pm.data})
+	}
+	// C19: the framing variant matches this connection's role and compression settings at the time of
+	// the call (judged on the bytes handed to the transport by this call)
+	for _, e := range evs {
+		if !strings.HasPrefix(e, "wr:") {
+			continue
+		}
+		raw, herr := hex.DecodeString(strings.Split(e, ":")[1])
+		if herr != nil || len(raw) < 2 {
+			continue
+		}
+		rsv1, masked := raw[0]&0x40 != 0, raw[1]&0x80 != 0
+		if rsv1 != compress {
+			g.sc.violate("%s: prepared message sent with RSV1=%v on a connection with compression negotiated=%v, write compression enabled=%v (message type %d)", wc.id, rsv1, wc.nego, wc.enableWC, pm.t)
+		}
+		if masked == wc.srv {
+			g.sc.violate("%s: prepared message sent with mask bit %v by a %s", wc.id, masked, map[bool]string{true: "server", false: "client"}[wc.srv])
+		}
+		break
 	}
 	g.markResult(wc, err)
 	res := resStr(err)
@@ -747,6 +815,7 @@ func (g *wGen) ctlPayload(t int) []byte {
 }
 
 func (g *wGen) step() {
+	defer g.poolCheck()
 	r := g.rng
 	wc := g.conns[r.Intn(len(g.conns))]
 	openH := -1
@@ -815,6 +884,7 @@ func (g *wGen) step() {
 	case x < 87:
 		d := []int{0, 3, 9, 11}[r.Intn(4)]
 		wc.c.SetWriteDeadline(tokTime(d))
+		wc.wd = tokTime(d)
 		g.sc.emit(fmt.Sprintf("swd %s %d", wc.id, d), "ok")
 	case x < 90:
 		b := r.Intn(2) == 0
@@ -923,6 +993,10 @@ func writerOracle(sc *scenario, wc *wConn) {
 			continue
 		}
 		sc.violate("%s: wire violates RFC 6455: %s", wc.id, p)
+	}
+	// every transport write happens under the deadline the caller asked for (C10 deadline_applied)
+	if wc.t.wdBad != "" {
+		sc.violate("%s: %s", wc.id, wc.t.wdBad)
 	}
 	// nothing after a close frame
 	for i, f := range frames {
